@@ -1,5 +1,5 @@
 (* C09 — file mode, owner, mtime and hard links survive replacement. *)
-From AD Require Import Bytes Outcome Fs Helper HelperProofs Config Walk WalkProofs.
+From AD Require Import Bytes Outcome Fs Helper HelperProofs Config Walk WalkProofs Rewrite.
 
 (* Whenever a real run reports Replaced for a single-link file — whichever handler, whatever its shape,
    even with a single injected fault — the path names a NEW regular inode whose content is the
@@ -51,8 +51,25 @@ Theorem C09_once_record : forall e fault m prof hs w p w' ino nd,
     (forall j, j <> ino -> (forall nd2, obs (s_fs s') p <> Some (j, nd2)) -> w_seen w' j = w_seen w j).
 Proof. exact entry_records_mask. Qed.
 
+(* a file with several hard links (fault-free run, handler output y): the result is Rewritten, the path still
+   names the SAME inode, which now holds y with the original mode, owner and link count and the original mtime
+   put back; every other name and every other pre-existing inode is as before, the temporary name is gone *)
+Theorem C09_rewritten_in_place : forall e prof eager handler p f0 ip meta y,
+  names f0 p = Some ip -> inodes f0 ip = Some meta -> i_nlink meta <> 1 ->
+  ip < next_ino f0 -> names f0 (tmp_path p) = None ->
+  handler (i_data meta) = Ok (y, true) ->
+  let r := run_handler e None Real prof eager handler p (init_sim f0) in
+  let f' := s_fs (fst r) in
+  snd r = Some Rewritten /\
+  names f' p = Some ip /\ names f' (tmp_path p) = None /\
+  (forall q, q <> tmp_path p -> names f' q = names f0 q) /\
+  inodes f' ip = Some (with_mtime (i_mtime meta) (with_data y meta)) /\
+  (forall j, j <> ip -> j < next_ino f0 -> inodes f' j = inodes f0 j).
+Proof. exact rewritten_in_place. Qed.
+
 Print Assumptions C09_replace.
 Print Assumptions C09_once_skip.
 Print Assumptions C09_once_all_seen.
 Print Assumptions C09_once_record.
 Print Assumptions C09_order_matters.
+Print Assumptions C09_rewritten_in_place.
